@@ -58,8 +58,9 @@ type queue struct {
 	mu     sync.Mutex
 	cond   *sync.Cond
 	items  [][]byte
-	closed bool // the sending side closed: readers get io.EOF after draining
-	local  bool // the receiving side closed itself (pipe-like): readers get errLocalClosed
+	closed bool  // the sending side closed: readers get io.EOF after draining
+	fail   error // if set, readers get this error after draining (transport failure)
+	local  bool  // the receiving side closed itself (pipe-like): readers get errLocalClosed
 }
 
 func newQueue() *queue { q := &queue{}; q.cond = sync.NewCond(&q.mu); return q }
@@ -220,7 +221,7 @@ func (e *End) Recv() ([]byte, error) {
 	}
 	q := e.in
 	q.mu.Lock()
-	for len(q.items) == 0 && !q.closed && !q.local {
+	for len(q.items) == 0 && !q.closed && !q.local && q.fail == nil {
 		q.cond.Wait()
 	}
 	var rec []byte
@@ -231,6 +232,8 @@ func (e *End) Recv() ([]byte, error) {
 	case len(q.items) > 0:
 		rec = q.items[0]
 		q.items = q.items[1:]
+	case q.fail != nil:
+		err = q.fail
 	default:
 		err = io.EOF
 	}
@@ -305,6 +308,16 @@ func (e *End) Inject(rec []byte) {
 	q := e.out
 	q.mu.Lock()
 	q.items = append(q.items, append([]byte(nil), rec...))
+	q.cond.Broadcast()
+	q.mu.Unlock()
+}
+
+// InjectFail makes the peer's Recv fail with err once it has drained what was
+// sent before (a transport failure at a moment of the harness's choosing).
+func (e *End) InjectFail(err error) {
+	q := e.out
+	q.mu.Lock()
+	q.fail = err
 	q.cond.Broadcast()
 	q.mu.Unlock()
 }
